@@ -331,6 +331,11 @@ class FlowMixin:
             if cur is None:
                 return
             cur = norm(cur)
+            if isinstance(cur, Bytes):
+                l = as_lin(norm(cur.length()))
+                if l is not None and l.terms:
+                    self.add_fact(st, l, ">0" if pol else "==0")
+                return
             if not pol:
                 if isinstance(cur, Sym) and cur.ty == "bool":
                     self.set_path_value(node, Const(False), st, fr)
